@@ -42,6 +42,8 @@ SLOTS = {
     'winit': [1], 'wfrom': [1, 2], 'wlock': [1, 2], 'wswap': [1, 2], 'wreset': [1],
     'ainit': [1], 'aalloc': [1], 'aset': [1], 'arelease': [1], 'adata': [1], 'aat': [1], 'asize': [1],
     'aslice': [1, 4], 'aunslice': [1, 2], 'areset': [1], 'straycopy': [1, 2],
+    # the guarded pointer used directly as an object (kind G); gcopy dst src
+    'ginit': [1], 'gset': [1], 'gget': [1], 'ggetc': [1], 'gcopy': [1, 2], 'gswap': [1, 2],
 }
 KINDS = {
     'uinit': 'U', 'ualloc': 'U', 'uget': 'U', 'urelease': 'U', 'uswap': 'UU', 'ureset': 'U',
@@ -49,9 +51,15 @@ KINDS = {
     'winit': 'W', 'wfrom': 'WS', 'wlock': 'WS', 'wswap': 'WW', 'wreset': 'W',
     'ainit': 'A', 'aalloc': 'A', 'aset': 'A', 'arelease': 'A', 'adata': 'A', 'aat': 'A', 'asize': 'A',
     'aslice': 'AA', 'aunslice': 'AA', 'areset': 'A',
+    'ginit': 'G', 'gset': 'G', 'gget': 'G', 'ggetc': 'G', 'gcopy': 'GG', 'gswap': 'GG',
 }
 # entry points that never read the pointer (no guard expected)
-UNGUARDED = ('uinit', 'sinit', 'winit', 'ainit', 'asize', 'straycopy')
+UNGUARDED = ('uinit', 'sinit', 'winit', 'ainit', 'asize', 'straycopy', 'ginit', 'gset')
+# entry points that read only some of their objects through the guard (positions in SLOTS order): the
+# destination of cstl_guarded_ptr_copy is overwritten and re-stamped, "regardless of its current state"
+GUARDED_ARGS = {'gcopy': [1]}
+# accessors that have a *_const variant with the same specification (header `constapi 1` selects it)
+CONST_OPS = ('uget', 'sget', 'aat', 'adata', 'gget')
 
 
 class SimAllocator:
@@ -136,7 +144,7 @@ class RefMem:
         self.kind = list(kinds)
         self.exts = list(exts)
         self.stray = [False] * n
-        self.ref = [None] * n         # S/W/A: Alloc or None; U: (m, cb) or None
+        self.ref = [None] * n         # S/W/A: Alloc or None; U: (m, cb) or None; G: the stored value (int) or None
         self.off = [0] * n
         self.len = [0] * n
         self.live = {}                # allocator audit: block -> size
@@ -147,7 +155,8 @@ class RefMem:
 
     # ------------------------------------------------------------ domain
     def disposable(self, i):
-        return self.stray[i] or self.ref[i] is None
+        # a guarded pointer object owns nothing: it may be overwritten in any state
+        return self.stray[i] or self.ref[i] is None or self.kind[i] == 'G'
 
     def check_domain(self, w):
         o = w[0]
@@ -240,6 +249,8 @@ class RefMem:
         out = []
         if o not in UNGUARDED:
             for pos, i in enumerate(idx):
+                if pos not in GUARDED_ARGS.get(o, range(len(idx))):
+                    continue
                 if self.stray[i]:
                     return dict(abort=True, why='stray copy in argument %d' % (pos + 1), out=None, exp=[], stray=pos + 1)
         a = idx[0]
@@ -253,6 +264,19 @@ class RefMem:
             self.stray_self[d] = self.stray_self[s] if self.stray[s] else s
             self.ref[d] = None            # the bytes carry a pointer, not a reference
             self.off[d], self.len[d] = self.off[s], self.len[s]
+        elif o == 'gset':
+            self.stray[a] = False             # stamped with its own address, whatever it was
+            self.ref[a] = int(w[2]) or None
+        elif o in ('gget', 'ggetc'):
+            out = [self.ref[a] if self.ref[a] is not None else -1]
+        elif o == 'gcopy':
+            dst, src = idx
+            v = self.ref[src]
+            self.stray[dst] = False           # the destination is overwritten and re-stamped
+            self.ref[dst] = v
+        elif o == 'gswap':
+            b = idx[1]
+            self.ref[a], self.ref[b] = self.ref[b], self.ref[a]
         elif o == 'ualloc':
             sz, cb = int(w[2]), int(w[3])
             self.u_destroy(a, exp)
@@ -398,6 +422,8 @@ class RefMem:
             if self.stray[i]:
                 self.stray[i] = False
                 self.ref[i] = None
+            elif k == 'G':
+                self.ref[i] = None
             elif k == 'U':
                 self.u_destroy(i, exp)
             elif k == 'W':
@@ -471,6 +497,10 @@ class RefMem:
             p = int(d.get('p', '-9'))
             if d.get('self') != str(i):
                 raise Violation('%s:self-address-lost' % opname, 'object %d no longer carries its own address' % i)
+            if k == 'G':
+                if p != (r if r is not None else -1):
+                    raise Violation('%s:guarded-value' % opname, 'guarded pointer %d holds %d, reference %s' % (i, p, r))
+                continue
             if k == 'U':
                 if p != (r[0] if r else -1) or int(d.get('c', '-9')) != (-1 if not r or r[1] is None else r[1]):
                     raise Violation('%s:unique-state' % opname, 'unique pointer %d holds %s, reference %s' % (i, d, r))
@@ -591,6 +621,8 @@ def oracle(case, impl):
             for x in ref.ref:
                 if isinstance(x, tuple):
                     owned.add(x[0])
+                elif isinstance(x, int):
+                    pass                     # the value of a guarded pointer object: owns nothing
                 elif x is not None:
                     owned.add(x.d)
                     if x.owners:
@@ -635,7 +667,7 @@ class Sim:
 
 # ---------------------------------------------------------------- generators
 
-HEADER_WORDS = ('pool', 'ext', 'fail', 'failfrom', 'cbprobe')
+HEADER_WORDS = ('pool', 'ext', 'fail', 'failfrom', 'cbprobe', 'constapi')
 
 
 def slots_of(kinds, k):
@@ -659,6 +691,8 @@ def draw_op(rnd, sim, kinds, exts, weights, p_relfail, benign=False):
         return 'straycopy %d %d' % (rnd.choice(c), rnd.choice(c))
     ks = KINDS[name]
     args = [pick(k) for k in ks]
+    if name == 'gset':
+        return 'gset %d %d' % (args[0], rnd.choice([0, 1, 2, 3]))
     if name == 'ualloc':
         return 'ualloc %d %d %d%s' % (args[0], rnd.choice([0, 1, 8, 8, 100, 1 << 20, LIMIT + 1]), rnd.choice([-1, 0, 3, 7]), rel)
     if name == 'salloc':
@@ -742,3 +776,23 @@ def gen_case(rnd, name, kinds, exts, nops, weights, p_relfail=0.08, p_header_fai
         sim = probe
         ops.append(op)
     return Case(name, header, ops, 'random')
+
+
+def const_variants(cases, every=2):
+    """The *_const accessors (cstl_unique_ptr_get_const, cstl_shared_ptr_get_const, cstl_array_at_const,
+    cstl_array_data_const, cstl_guarded_ptr_get_const) have the specification of their non-const twins: every
+    second case that uses one of uget / sget / aat / adata / gget is replayed with the header `constapi 1`, which
+    makes the driver call the const variant instead.  Model and oracle ignore the header."""
+    from lib.core import Case
+    out = []
+    n = 0
+    for c in cases:
+        if any(h.split()[0] == 'constapi' for h in c.header):
+            continue
+        if not any(o.split()[0] in CONST_OPS for o in c.ops):
+            continue
+        n += 1
+        if n % every:
+            continue
+        out.append(Case(c.name + 'k', c.header + ['constapi 1'], c.ops, c.origin))
+    return out
